@@ -135,9 +135,16 @@ def stopcmds(job, rng, home):
     if r < 0.5:
         sp = rng.randint(w.icp, w.fcp)
         plan["cmds"] = [(it, "stop", {"mode": None, "cycle_point": str(sp)})]
-        if rng.random() < 0.5:
+        r2 = rng.random()
+        if r2 < 0.4:
             # a reload straight after (or a little after) the stop request
             plan["cmds"].append((it + rng.choice([0, 0, 1, 3]), "reload_workflow", {}))
+        elif r2 < 0.6:
+            # stopped (--now) and restarted before the stop point is reached: it must still be in force
+            plan["stop"] = {"iter": it + rng.randint(1, 4), "mode": "REQUEST_NOW", "restart": True, "sync": True}
+        elif r2 < 0.8:
+            # restarted after the workflow has shut itself down at the stop point: the stop point is forgotten
+            plan["restart_after_auto"] = True
     elif r < 0.7:
         kind = "task"
         plan["cmds"] = [(it, "stop", {"mode": None, "task": _ids_for_cmds(w, rng, 1)[0]})]
@@ -149,7 +156,8 @@ def stopcmds(job, rng, home):
         # started with --stopcp, changed at run time
         run_opts["stopcp"] = str(rng.randint(w.icp, w.fcp))
     res = driver.execute(w.flow_text(), outcome, eseed, os.path.join(home, "main"), plan=plan, run_opts=run_opts)
-    return _pack(job["seed"], w, res, {"allcomplete": kind == "point", "stopreq": kind != "point", "stopkind": kind,
+    return _pack(job["seed"], w, res, {"allcomplete": kind == "point" and "stop" not in plan,
+                                       "stopreq": kind != "point" or "stop" in plan, "stopkind": kind,
                                        "stopmid": kind == "point"},
                  {"plan": plan})
 
